@@ -109,6 +109,7 @@ def run(ctx):
     r3(ctx, g)
     r4_r5(ctx)
     r6(ctx)
+    r8(ctx)
     from rules import c03
 
     c03.r6(ctx, rule="R7")
@@ -557,3 +558,21 @@ def r6(ctx):
             ok = cls == "DataTransformBlock" or guarded
             ctx.ob("R6", "DOM", f, f"{src(c.func.value)}.set_config_block({src(c.args[0])})", ok,
                    f"in-loop attachment of {cls}: " + ("a data transform always has its steps/termination children" if cls == "DataTransformBlock" else f"guarded by {conds[-2:]}" if guarded else "not guarded against an empty child"), c)
+
+
+def r8(ctx):
+    """DataTransformBlock.add_step / add_termination: an argument is attached iff it is not None (empty arguments are
+    legal), and the two siblings agree."""
+    a = ctx.repo.func("c2profile.DataTransformBlock.add_step")
+    b = ctx.repo.func("c2profile.DataTransformBlock.add_termination")
+    shapes = {}
+    for g in (a, b):
+        val = params(g.node)[2]
+        ifs = [s2 for s2 in statements(g.node) if isinstance(s2, ast.If)]
+        guard = src(ifs[0].test) if len(ifs) == 1 else None
+        ok = guard == f"{val} is not None"
+        ctx.ob("R8", "AGREE", g, "argument attached iff not None", ok, f"guard `{guard}` (required `{val} is not None`: an empty argument still needs its string child, otherwise the text does not parse)")
+        body = [src(s2).replace("self.steps", "self.LIST").replace("self.termination", "self.LIST") for s2 in statements(g.node) if not isinstance(s2, ast.Expr) or not isinstance(s2.value, ast.Constant)]
+        shapes[g.qualname] = body
+    vals = list(shapes.values())
+    ctx.ob("R8", "AGREE", a, "add_step ~ add_termination", vals[0] == vals[1], "the two builders are equal up to the list they append to" if vals[0] == vals[1] else f"siblings differ: {shapes}")
